@@ -3,5 +3,6 @@
 (* events prints its event sequence as one JSON line.                       *)
 EXTENDS Raft, Json
 CONSTANT Depth
-Dump == (Len(hist) = Depth) => PrintT(<<"SCHED", ToJson(hist)>>)
+\* (a behaviour that runs out of enabled actions before Depth - the model bounds are exhausted - is printed too)
+Dump == (Len(hist) = Depth \/ (Len(hist) >= 20 /\ ~ENABLED Next)) => PrintT(<<"SCHED", ToJson(hist)>>)
 =============================================================================
